@@ -50,7 +50,14 @@ class Wrapped:
         return hash(("Wrapped", self.kind))
 
 
+def _has_surrogate(s):
+    return any(0xD800 <= ord(c) <= 0xDFFF for c in s)
+
+
 def enc(o):
+    if isinstance(o, str) and _has_surrogate(o):
+        # JSON would merge an adjacent high+low pair of *lone* surrogates into one astral character
+        return {"$str": [ord(c) for c in o]}
     if o is None or isinstance(o, (bool, str)):
         return o
     if isinstance(o, int):
@@ -91,7 +98,7 @@ def enc(o):
     if isinstance(o, set):
         return {"$set": sorted((enc(x) for x in o), key=lambda e: json.dumps(e, sort_keys=True))}
     if isinstance(o, dict):
-        if all(isinstance(k, str) and not k.startswith("$") for k in o):
+        if all(isinstance(k, str) and not k.startswith("$") and not _has_surrogate(k) for k in o):
             return {k: enc(v) for k, v in o.items()}
         return {"$dict": [[enc(k), enc(v)] for k, v in o.items()]}
     raise TypeError(f"codec: cannot encode {type(o)!r}: {o!r}")
@@ -105,6 +112,8 @@ def dec(e):
     if isinstance(e, list):
         return [dec(x) for x in e]
     if isinstance(e, dict):
+        if "$str" in e:
+            return "".join(chr(c) for c in e["$str"])
         if "$int" in e:
             return int(e["$int"])
         if "$float" in e:
